@@ -6,7 +6,8 @@ VERIF = os.path.dirname(os.path.dirname(os.path.abspath(__file__)))
 BUILD = os.path.join(VERIF, 'build')
 TMP = os.path.join(BUILD, 'tmp')
 REPLAYS = os.path.join(VERIF, 'replays')
-EVID = os.path.join(VERIF, 'evidence')
+# seeded-change evaluations (tools/seed_eval.py, seed_regress.py) redirect their evidence so that evidence/ only ever holds runs on /repo itself
+EVID = os.environ.get('VERIF_EVIDENCE_DIR') or os.path.join(VERIF, 'evidence')
 CORES = min(16, os.cpu_count() or 4)
 
 
